@@ -486,4 +486,118 @@ theorem C10_leaf_DecodePacket_total (pkt0 : S_NtsPacket) (b : List UInt8) (fuel 
   | panic p => rw [hm] at h; exact h.elim
   | hang => rw [hm] at h; exact h.elim
 
+/-! ### corollaries about the regenerated code -/
+
+/-- header of the field at position `p`, as numbers -/
+def typeAt (b : List UInt8) (p : Nat) : Nat := u16 ((bytesN b).getD p 0) ((bytesN b).getD (p + 1) 0)
+def lenAt (b : List UInt8) (p : Nat) : Nat := u16 ((bytesN b).getD (p + 2) 0) ((bytesN b).getD (p + 3) 0)
+
+/-- **the walk stops at the authenticator**: with a well-formed authenticator header at the current
+    position the loop of the regenerated `DecodePacket` ends there, for every buffer `b` (so whatever
+    bytes follow the authenticator: further cookies, a second unique identifier, a second
+    authenticator, garbage): the unique identifier, the cookies and the placeholders are exactly
+    those collected before it, and `Auth.pos` is this position. -/
+theorem C10_leaf_stops_at_authenticator (b : List UInt8) (p n : Nat) (fu : Bool) (pkt : S_NtsPacket)
+    (hL : b.length < 4611686018427387904) (h28 : p + 28 ≤ b.length)
+    (ht : typeAt b p = extAuthenticator) (hl : 4 ≤ lenAt b p ∧ lenAt b p ≤ b.length - p) :
+    ∃ pkt' pos', Go.forFuel (n + 2) (false, false, fu, pkt, Int64.ofNat p) (dpBody b) =
+        some (.inl (false, true, fu, pkt', pos')) ∧
+      pkt'.UniqueID = pkt.UniqueID ∧ pkt'.Cookies = pkt.Cookies ∧
+      pkt'.CookiePlaceholders = pkt.CookiePlaceholders ∧ pkt'.Auth.pos = Int64.ofNat p := by
+  have hs := body_spec b p fu pkt hL h28
+  unfold StepOK at hs
+  unfold typeAt at ht
+  unfold lenAt at hl
+  rw [if_neg (by omega), if_pos ht] at hs
+  obtain ⟨eh, N, C, hr, _⟩ := hs
+  exact ⟨{ pkt with Auth := { extHdr := eh, Nonce := N, CipherText := C, Key := [], PlainText := [], pos := Int64.ofNat p } }, _,
+    by rw [forFuel_next _ _ _ _ hr, forFuel_brk _ _ _ _ (body_fa b _ _ _ _)], rfl, rfl, rfl, rfl⟩
+
+/-- from position `p` on: well-formed fields that are neither unique identifiers nor
+    authenticators, then a well-formed authenticator header -/
+inductive NoUidUntilAuth (b : List UInt8) : Nat → Prop where
+  | auth (p : Nat) : p + 28 ≤ b.length → typeAt b p = extAuthenticator →
+      4 ≤ lenAt b p ∧ lenAt b p ≤ b.length - p → NoUidUntilAuth b p
+  | skip (p : Nat) : p + 28 ≤ b.length → typeAt b p ≠ extAuthenticator → typeAt b p ≠ extUniqueIdentifier →
+      4 ≤ lenAt b p ∧ lenAt b p ≤ b.length - p → NoUidUntilAuth b (p + lenAt b p) → NoUidUntilAuth b p
+
+theorem uid_kept (b : List UInt8) (hL : b.length < 4611686018427387904) (p : Nat) (h : NoUidUntilAuth b p) :
+    ∀ (n : Nat) (fu : Bool) (pkt : S_NtsPacket), b.length - p < n →
+      ∃ pkt' pos', Go.forFuel (n + 1) (false, false, fu, pkt, Int64.ofNat p) (dpBody b) =
+          some (.inl (false, true, fu, pkt', pos')) ∧ pkt'.UniqueID = pkt.UniqueID := by
+  induction h with
+  | auth p h28 ht hl =>
+    intro n fu pkt hn
+    obtain ⟨k, hk⟩ : ∃ k, n = k + 1 := ⟨n - 1, by omega⟩
+    obtain ⟨pkt', pos', hrun, hu, _⟩ := C10_leaf_stops_at_authenticator b p k fu pkt hL h28 ht hl
+    exact ⟨pkt', pos', by rw [hk]; exact hrun, hu⟩
+  | skip p h28 hta htu hl _ ih =>
+    intro n fu pkt hn
+    obtain ⟨k, hk⟩ : ∃ k, n = k + 1 := ⟨n - 1, by omega⟩
+    have hs := body_spec b p fu pkt hL h28
+    unfold StepOK at hs
+    unfold typeAt at hta htu
+    unfold lenAt at hl ih
+    rw [if_neg (by omega), if_neg hta, if_neg htu] at hs
+    subst hk
+    split at hs
+    · obtain ⟨eh, X, hr, _⟩ := hs
+      obtain ⟨pkt', pos', hrun, hu⟩ := ih k fu { pkt with Cookies := pkt.Cookies ++ [{ extHdr := eh, Cookie := X }] } (by omega)
+      exact ⟨pkt', pos', by rw [forFuel_next _ _ _ _ hr]; exact hrun, hu⟩
+    · split at hs
+      · obtain ⟨c, hr⟩ := hs
+        obtain ⟨pkt', pos', hrun, hu⟩ := ih k fu { pkt with CookiePlaceholders := pkt.CookiePlaceholders ++ [c] } (by omega)
+        exact ⟨pkt', pos', by rw [forFuel_next _ _ _ _ hr]; exact hrun, hu⟩
+      · obtain ⟨pkt', pos', hrun, hu⟩ := ih k fu pkt (by omega)
+        exact ⟨pkt', pos', by rw [forFuel_next _ _ _ _ hs]; exact hrun, hu⟩
+
+/-- **the unique identifier in the result is the last UID field before the authenticator**: a
+    well-formed UID field at `p`, then fields that are neither UID nor authenticator, then the
+    authenticator: the loop of the regenerated `DecodePacket` ends with `foundUniqueID`,
+    `foundAuthenticator` and `pkt.UniqueID.ID` = the value of THAT field (`Length - 4` bytes from
+    `p + 4`, zero-padded at the end of the buffer) — whatever identifier was stored before. -/
+theorem C10_leaf_uid_is_last_before_auth (b : List UInt8) (p n : Nat) (fu : Bool) (pkt : S_NtsPacket)
+    (hL : b.length < 4611686018427387904) (h28 : p + 28 ≤ b.length)
+    (ht : typeAt b p = extUniqueIdentifier) (hl : 4 ≤ lenAt b p ∧ lenAt b p ≤ b.length - p)
+    (hrest : NoUidUntilAuth b (p + lenAt b p)) (hn : b.length - p < n) :
+    ∃ pkt' pos', Go.forFuel (n + 1) (false, false, fu, pkt, Int64.ofNat p) (dpBody b) =
+        some (.inl (false, true, true, pkt', pos')) ∧
+      bytesN pkt'.UniqueID.ID = copyN (valueLen (lenAt b p)) ((bytesN b).drop (p + 4)) := by
+  have hs := body_spec b p fu pkt hL h28
+  unfold StepOK at hs
+  have hne : ¬ (typeAt b p = extAuthenticator) := by rw [ht]; decide
+  unfold typeAt at ht hne
+  unfold lenAt at hl hrest ⊢
+  rw [if_neg (by omega), if_neg hne, if_pos ht] at hs
+  obtain ⟨eh, X, hr, hX⟩ := hs
+  obtain ⟨k, hk⟩ : ∃ k, n = k + 1 := ⟨n - 1, by omega⟩
+  subst hk
+  obtain ⟨pkt', pos', hrun, hu⟩ := uid_kept b hL _ hrest k true
+    { pkt with UniqueID := { extHdr := eh, ID := X } } (by omega)
+  exact ⟨pkt', pos', by rw [forFuel_next _ _ _ _ hr]; exact hrun, by rw [hu]; exact hX⟩
+
+/-! ### non-vacuity -/
+
+def emptyPkt : S_NtsPacket :=
+  { UniqueID := { extHdr := { Type' := 0, Length := 0 }, ID := [] }, Cookies := [], CookiePlaceholders := [],
+    Auth := { extHdr := { Type' := 0, Length := 0 }, Nonce := [], CipherText := [], Key := [], PlainText := [], pos := 0 } }
+
+/-- 48 header bytes, a UID field (32 x 7), a cookie field (4 x 5), an authenticator (nonce 16 x 9,
+    ciphertext 16 x 9), and a second UID field BEHIND the authenticator (ignored) -/
+def sample : List UInt8 :=
+  List.replicate 48 0 ++ [1, 4, 0, 36] ++ List.replicate 32 7 ++ [2, 4, 0, 8, 5, 5, 5, 5] ++
+    [4, 4, 0, 40, 0, 16, 0, 16] ++ List.replicate 32 9 ++ [1, 4, 0, 36] ++ List.replicate 32 8
+
+example : (match nts_DecodePacket emptyPkt sample 200 with
+    | .ok (p, e) => some (p.UniqueID.ID, p.Cookies.map (·.Cookie), p.Auth.pos, p.Auth.Nonce.length, e) | _ => none) =
+    some (List.replicate 32 7, [[5, 5, 5, 5]], 92, 16, false) := by decide +kernel
+
+/-- a field with `Length = 0` (the F2 input): an error, not a hang -/
+example : (match nts_DecodePacket emptyPkt (List.replicate 48 0 ++ [9, 9, 0, 0] ++ List.replicate 24 0) 78 with
+    | .ok (_, e) => some e | _ => none) = some true := by decide +kernel
+
+example : NoUidUntilAuth sample 84 :=
+  .skip 84 (by decide +kernel) (by decide +kernel) (by decide +kernel) (by decide +kernel)
+    (.auth 92 (by decide +kernel) (by decide +kernel) (by decide +kernel))
+
 end ScionTime.LeafTieC14NtsDec
